@@ -15,12 +15,18 @@ type SeqOp struct {
 	Key  string `json:"key"`
 	Val  []byte `json:"val,omitempty"`
 	Exp  uint64 `json:"exp,omitempty"` // expected revision (update: required; delete: 0 = unguarded)
+	// Lease is sent as the request's lease id (create, update). kubebrain has no leases: expiry is a property of
+	// Event keys only, so the field must not change what happens to a key.
+	Lease int64 `json:"lease,omitempty"`
 }
 
 func (o SeqOp) String() string {
 	v := o.Val
 	if len(v) > 24 {
 		v = append(append([]byte{}, v[:24]...), []byte("...")...)
+	}
+	if o.Lease != 0 {
+		return fmt.Sprintf("%s(%q,val=%q,exp=%d,lease=%d)", o.Kind, o.Key, v, o.Exp, o.Lease)
 	}
 	return fmt.Sprintf("%s(%q,val=%q,exp=%d)", o.Kind, o.Key, v, o.Exp)
 }
@@ -51,7 +57,7 @@ func (n *Node) Do(op SeqOp) Outcome { return n.DoCtx(Ctx, op) }
 
 // DoCtx is Do with the request context of the caller's choice (a client may have given up already).
 func (n *Node) DoCtx(ctx context.Context, op SeqOp) Outcome {
-	if ctx != Ctx {
+	if ctx != Ctx || op.Lease != 0 {
 		return n.doCtx(ctx, op)
 	}
 	var out Outcome
@@ -181,14 +187,14 @@ func (n *Node) doCtx(ctx context.Context, op SeqOp) Outcome {
 	var out Outcome
 	switch op.Kind {
 	case "create":
-		r, err := n.B.Create(ctx, &proto.CreateRequest{Key: []byte(op.Key), Value: op.Val})
+		r, err := n.B.Create(ctx, &proto.CreateRequest{Key: []byte(op.Key), Value: op.Val, Lease: op.Lease})
 		if err != nil {
 			out.Err = err.Error()
 		} else {
 			out.Succeeded, out.Rev = r.Succeeded, r.Header.GetRevision()
 		}
 	case "update":
-		r, err := n.B.Update(ctx, &proto.UpdateRequest{Kv: &proto.KeyValue{Key: []byte(op.Key), Value: op.Val, Revision: op.Exp}})
+		r, err := n.B.Update(ctx, &proto.UpdateRequest{Kv: &proto.KeyValue{Key: []byte(op.Key), Value: op.Val, Revision: op.Exp}, Lease: op.Lease})
 		if err != nil {
 			out.Err = err.Error()
 		} else {
